@@ -48,7 +48,11 @@ class DifferentialEvolutionOptimizer(EvolutionaryAlgorithmOptimizer):
         self.offspring_l = []
 
     def mutation(self, f=1):
-        ind_selected = random.sample(self.individuals, 3)
+        if len(self.individuals) >= 3:
+            ind_selected = random.sample(self.individuals, 3)
+        else:
+            # fewer than three individuals: draw with replacement
+            ind_selected = random.choices(self.individuals, k=3)
 
         x_1, x_2, x_3 = [ind.pos_best for ind in ind_selected]
         return x_1 + self.mutation_rate * np.subtract(x_2, x_3)
